@@ -6,6 +6,7 @@ import (
 	"runtime"
 	"strconv"
 	"sync"
+	"sync/atomic"
 	"time"
 
 	tally "github.com/uber-go/tally/v4"
@@ -62,14 +63,28 @@ var hooksOnce sync.Once
 func installHooks() {
 	hooksOnce.Do(func() {
 		tally.VerifSetHooks(&tally.VerifHooks{
-			Yield:    func(l string) { hook(l, "") },
-			YieldInt: func(l string, v int64) { hook(l, strconv.FormatInt(v, 10)) },
+			Yield: func(l string) { hook(l, "") },
+			YieldInt: func(l string, v int64) {
+				if o, _ := intObserver.Load().(func(string, int64)); o != nil {
+					o(l, v)
+				}
+				hook(l, strconv.FormatInt(v, 10))
+			},
 			YieldStr: func(l string, s string) { hook(l, s) },
 		})
 	})
 }
 
 var schedMu sync.RWMutex
+
+// intObserver, when set, sees every YieldInt observation point (label, value) before the scheduler
+// does; it must not block. Used by the M3 suites for the charge / flush hooks of process().
+var intObserver atomic.Value // func(string, int64)
+
+func setIntObserver(f func(string, int64)) {
+	installHooks()
+	intObserver.Store(f)
+}
 
 func hook(label, arg string) {
 	schedMu.RLock()
